@@ -277,6 +277,8 @@ add("refactor_parser_index_check_range", (PAR, "        if index >= len(self._at
 add("refactor_parser_index_check_early_return", (PAR, "        if index >= len(self._atoms):\n            raise TucanParserException(f\"Atom with index {index + 1} does not exist.\")", "        if 0 <= index < len(self._atoms):\n            return\n        raise TucanParserException(f\"Atom with index {index + 1} does not exist.\")"), silent=True)
 add("refactor_igraph_built_by_hand", (CAN, "    m_igraph = iGraph.from_networkx(m)\n", "    position = {node: i for i, node in enumerate(m)}\n    m_igraph = iGraph(n=m.number_of_nodes(), edges=[(position[u], position[v]) for u, v in m.edges()])\n    m_igraph.vs[\"_nx_name\"] = list(m)\n    m_igraph.vs[PARTITION] = [p for _, p in m.nodes(data=PARTITION)]\n"), silent=True, note="igraph object assembled from positions instead of from_networkx")
 add("igraph_built_by_hand_with_labels", (CAN, "    m_igraph = iGraph.from_networkx(m)\n", "    m_igraph = iGraph(n=m.number_of_nodes(), edges=list(m.edges()))\n    m_igraph.vs[\"_nx_name\"] = list(m)\n    m_igraph.vs[PARTITION] = [p for _, p in m.nodes(data=PARTITION)]\n"), fires={"R-BLISS"})
+add("refactor_skip_bliss_when_discrete", (CAN, "    m_igraph = iGraph.from_networkx(m)\n", "    classes = nx.get_node_attributes(m, PARTITION)\n    if len(set(classes.values())) == m.number_of_nodes():\n        return classes\n    m_igraph = iGraph.from_networkx(m)\n"), silent=True, note="classes used as labels when they are pairwise distinct")
+add("skip_bliss_when_no_bonds", (CAN, "    m_igraph = iGraph.from_networkx(m)\n", "    classes = nx.get_node_attributes(m, PARTITION)\n    if len(set(classes.values())) == m.number_of_nodes() or m.number_of_edges() == 0:\n        return classes\n    m_igraph = iGraph.from_networkx(m)\n"), fires={"R-BIJ", "R-BLISS"})
 add("refactor_parser_inline_add_bond", (PAR, "        self._add_bond(index1, index2)", "        self._bonds.append((index1 - 1, index2 - 1))"), silent=True)
 add("refactor_sort_by_label_add_node", (GU, '''    nodes_sorted_by_label = sorted(list(m.nodes(data=True)))
 
